@@ -136,9 +136,11 @@ type corruptStore struct {
 	raft.LogStore
 	mut      map[uint64]string
 	failNext bool
+	yield    bool // every call is a scheduling point (vconc.go)
 }
 
 func (c *corruptStore) StoreLogs(logs []*raft.Log) error {
+	c.point("StoreLogs")
 	if c.failNext {
 		c.failNext = false
 		return errors.New("injected store failure")
@@ -149,6 +151,7 @@ func (c *corruptStore) StoreLogs(logs []*raft.Log) error {
 func (c *corruptStore) StoreLog(l *raft.Log) error { return c.StoreLogs([]*raft.Log{l}) }
 
 func (c *corruptStore) GetLog(i uint64, l *raft.Log) error {
+	c.point("GetLog")
 	if err := c.LogStore.GetLog(i, l); err != nil {
 		return err
 	}
